@@ -361,7 +361,7 @@ func typedGetOC(o at.Object, key string, k string) (v any, p any) {
 }
 
 // insert performs the entry point with argument w; returns the holder of w's normal form.
-func insert(ep string, w any) (h holder, container any) {
+func insert(ep string, w any, early *any) (h holder, container any) {
 	isSlice := func(x any) bool {
 		switch x.(type) {
 		case []any, []at.Object, []at.List, []string, []bool, []int, []float64:
@@ -392,18 +392,25 @@ func insert(ep string, w any) (h holder, container any) {
 		return holder{l: l, idx: 1}, l
 	case "Add":
 		l := at.NewList("pad")
+		*early = l
 		l.Add(w)
 		return holder{l: l, idx: 1}, l
 	case "Insert":
 		l := at.NewList("pad", "pad2")
+		*early = l
+		l.Insert(2, "pad3")
+		l.Insert(3, w) // at the end: Insert delegates to Add
+		l.Delete(3)
 		l.Insert(1, w)
 		return holder{l: l, idx: 1}, l
 	case "Replace":
 		l := at.NewList("pad", "old")
+		*early = l
 		l.Replace(1, w)
 		return holder{l: l, idx: 1}, l
 	case "SetTF(list)":
 		l := at.NewList("pad")
+		*early = l
 		l.SetTF("#2#1", w)
 		return holder{l: l.GetList(2), idx: 1}, l
 	case "NewObject":
@@ -418,10 +425,12 @@ func insert(ep string, w any) (h holder, container any) {
 		return holder{o: o, key: "v"}, o
 	case "Set":
 		o := at.NewObject("v", "old")
+		*early = o
 		o.Set("v", w)
 		return holder{o: o, key: "v"}, o
 	case "SetTF(object)":
 		o := at.NewObject()
+		*early = o
 		o.SetTF(".a.v", w)
 		return holder{o: o.GetObject("a"), key: "v"}, o
 	case "list.Map":
@@ -489,16 +498,54 @@ func descend(h holder, ctx string) (holder, error) {
 
 var kindTypeC = map[string]at.Type{"nil": at.TypeNil, "O": at.TypeObject, "L": at.TypeList, "str": at.TypeString, "bool": at.TypeBool, "int": at.TypeInt, "float": at.TypeFloat}
 
+func wellFormed(c any) (err error) {
+	defer func() {
+		if e := recover(); e != nil {
+			err = fmt.Errorf("panic while reading it: %v", e)
+		}
+	}()
+	switch x := c.(type) {
+	case at.List:
+		for i := 0; i < x.Count(); i++ {
+			if x.TypeOf(i) == at.TypeUndefined {
+				return fmt.Errorf("TypeOf(%d) is TypeUndefined inside a list of %d", i, x.Count())
+			}
+			if sub, ok := x.Get(i).(at.List); ok {
+				if err := wellFormed(sub); err != nil {
+					return err
+				}
+			}
+		}
+		_ = x.String()
+	case at.Object:
+		keys := x.Keys()
+		for i := 0; i < keys.Count(); i++ {
+			if x.TypeOf(keys.GetString(i)) == at.TypeUndefined {
+				return fmt.Errorf("TypeOf(%q) is TypeUndefined for an existing key", keys.GetString(i))
+			}
+		}
+		_ = x.String()
+	}
+	return nil
+}
+
 func checkConvert(r *convRec, m member) error {
 	w := wrapCtx(r.Ctx, m.v)
 	var h holder
-	var container any
+	var container, early any
 	panicked := func() (p any) {
 		defer func() { p = recover() }()
-		h, container = insert(r.Ep, w)
+		h, container = insert(r.Ep, w, &early)
 		return nil
 	}()
 	if r.Kind == "reject" {
+		if panicked != nil && early != nil {
+			// the container the rejected call was made on must still be a well-formed container:
+			// every position reports one of the seven kinds and can be read and serialised
+			if err := wellFormed(early); err != nil {
+				return fmt.Errorf("after rejecting %T the receiver is no longer well formed: %v", m.v, err)
+			}
+		}
 		if panicked == nil {
 			got := "?"
 			if hh, err := descend(h, r.Ctx); err == nil {
